@@ -70,3 +70,21 @@ Theorem C18_one_instruction_bounded : forall O h op r, SI r ->
   end.
 Proof. exact one_instruction_bounded. Qed.
 Print Assumptions C18_one_instruction_bounded.
+
+(* ---- compiled statements leave nothing behind (Proofs/Flow3.v, the C01 simulation) ---- *)
+From BL Require Import Lang.Ast Spec.Sem Proofs.Slicing Proofs.Flow Proofs.Flow2 Proofs.Flow3.
+
+(* for programs of LET, PRINT, GOTO, ON..GOTO and END: whenever the reference semantics completes a statement and passes
+   control on, the VM -- after the corresponding instructions, whatever the budgets of the calls -- has a value stack exactly
+   as long as before the statement *)
+Theorem C18_statement_leaves_stack : forall O srcl pls lo sl,
+  Forall2 lmatch srcl pls -> ascending pls lo -> last_is_end (prog_ops pls) = true -> last_nonempty pls ->
+  sl + lenN (prog_ops pls) <= MAX_POOL ->
+  forall sb n sd s sr sa pb pd p pr pa st r st2 k',
+  srcl = sb ++ (n, sd ++ s :: sr) :: sa -> pls = pb ++ (n, pd ++ p :: pr) :: pa ->
+  Forall2 lmatch sb pb -> Forall2 gstmt sd pd -> gstmt s p -> Forall2 gstmt sr pr -> Forall2 lmatch sa pa ->
+  r_pc r = lenN (prog_ops pb) + lenN (flat_map pc_ops pd) -> sfacts pls sl st r ->
+  exec O srcl 200 n s (tag_line n sr, n) st = (st2, Go k') ->
+  exists outs r2, vm_steps O r outs r2 /\ r_slen r2 = r_slen r.
+Proof. exact stmt_leaves_stack. Qed.
+Print Assumptions C18_statement_leaves_stack.
